@@ -4,8 +4,8 @@
 package simos
 
 import (
-	"io"
 	"errors"
+	"io"
 	"io/fs"
 	orig "os"
 	"strings"
